@@ -640,7 +640,7 @@ pub fn c09(c: &Corpus, tier: &str, seed: u64) -> Report {
     let ds = all_dialects();
     let mut distinct = BTreeSet::new();
     let mut rng = Rng(seed ^ 0xC09);
-    let frags = ["SELECT", " ", "\n", "\t", "\r\n", "1e5", "1.5E-10", "2e+3", ".5", "1.", "0x1F", "'a''b'", "\"q\"", "`b`", "[x]", "--c\n", "/* c */", "a.b", "@v", "#t", "$1", "$$x$$", "?", "?1", "::", "->>", "<=>", "||", "é", "𝒳", "N'x'", "E'\\n'", "U&'\\0041'", "1e", "1ea", ";", ",", "(", ")", "x'AB'", "%s", "a-b", "1a", "_x", "\u{a0}"];
+    let frags = ["SELECT", " ", "\n", "\t", "\r\n", "1e5", "1.5E-10", "2e+3", ".5", "1.", "0x1F", "'a''b'", "\"q\"", "`b`", "[x]", "--c\n", "/* c */", "a.b", "@v", "#t", "$1", "$$x$$", "?", "?1", "::", "->>", "<=>", "||", "é", "𝒳", "N'x'", "E'\\n'", "U&'\\0041'", "1e", "1ea", ";", ",", "(", ")", "x'AB'", "%s", "a-b", "1a", "_x", "\u{a0}", "\u{feff}", "\u{200b}", "\u{85}", "\u{2028}", "\r", "\u{0}", "\u{1a}"];
     let mut texts: Vec<String> = c.literals.iter().filter(|s| s.len() < 600).cloned().collect();
     let nsoup = if tier == "thorough" { 60000 } else { 6000 };
     for _ in 0..nsoup {
